@@ -923,6 +923,16 @@ func (s *state) validateType(value reflect.Value, typ reflect.Type) reflect.Valu
 					return reflect.ValueOf(str.String())
 				}
 			}
+			// a native Go value (a literal held in a variable, a range index) where a pugjs
+			// value is expected: box it, exactly as a literal argument in the same place is
+			switch value.Kind() {
+			case reflect.Bool, reflect.String, reflect.Float32, reflect.Float64,
+				reflect.Int, reflect.Int8, reflect.Int16, reflect.Int32, reflect.Int64,
+				reflect.Uint, reflect.Uint8, reflect.Uint16, reflect.Uint32, reflect.Uint64:
+				if boxed := reflect.ValueOf(convert(value)); boxed.Type().AssignableTo(typ) {
+					return boxed
+				}
+			}
 
 			s.errorf("wrong type for value; expected %s; got %s", typ, value.Type())
 		}
